@@ -803,7 +803,26 @@ fn drive(ctx: &mut Ctx, ch: &Choices, rd: &mut dyn Rd, front: Front, model: &[i3
                     10 => -(u as i128),
                     _ => (ch.draw("h.seek.any", len / u + 1) * u) as i128,
                 };
-                let (req, target): (SeekReq, i128) = if is_byte {
+                // sometimes a request at the far ends of the argument types: all of them lie outside the
+                // stream and are to be refused (and computed without overflow)
+                let extreme = ch.draw("h.seek.extreme", 12) == 11;
+                let (req, target): (SeekReq, i128) = if extreme && is_byte {
+                    probe("c06_seek_argument_extreme");
+                    match ch.draw("h.seek.x", 8) {
+                        0 => (SeekReq::Start(u64::MAX), u64::MAX as i128),
+                        1 => (SeekReq::Start(1 << 63), 1i128 << 63),
+                        2 => (SeekReq::Start(u64::MAX - u + 1), (u64::MAX - u + 1) as i128),
+                        3 if pos_known => (SeekReq::Cur(i64::MAX), cur as i128 + i64::MAX as i128),
+                        4 if pos_known => (SeekReq::Cur(i64::MIN), cur as i128 + i64::MIN as i128),
+                        5 => (SeekReq::End(i64::MAX), len as i128 + i64::MAX as i128),
+                        6 => (SeekReq::End(i64::MIN), len as i128 + i64::MIN as i128),
+                        _ => (SeekReq::End(1), len as i128 + 1),
+                    }
+                } else if extreme {
+                    probe("c06_seek_argument_extreme");
+                    let t = *ch.pick("h.seek.xf", &[u64::MAX, u64::MAX / u, (u64::MAX / u).saturating_add(1), 1 << 63, 1 << 36, (1 << 36) - 1, u64::MAX - 1]);
+                    (SeekReq::Frame(t), t as i128 * u as i128)
+                } else if is_byte {
                     match ch.draw("h.seek.from", 4) {
                         0 | 1 => {
                             if target_items < 0 && pos_known {
@@ -832,18 +851,18 @@ fn drive(ctx: &mut Ctx, ch: &Choices, rd: &mut dyn Rd, front: Front, model: &[i3
                 if eos_seen {
                     probe("c06_seek_after_eos");
                 }
-                if target >= 0 && (target as u64) % fi == 0 {
+                if target >= 0 && target % fi as i128 == 0 {
                     probe("c06_seek_frame_boundary");
                 } else {
                     probe("c06_seek_mid_frame");
                 }
-                if target >= 0 && (target as u64) % u != 0 {
+                if target >= 0 && target % u as i128 != 0 {
                     probe("c06_seek_mid_pcm_frame");
                 }
                 ctx.note(|| format!("op seek {req:?} (absolute item {target}) from model position {cur}, stream length {len}"));
                 let r = rd.seek(req);
                 ctx.api(23, r.is_ok() as u64);
-                let valid = target >= 0 && (target as u64) <= len;
+                let valid = target >= 0 && target <= len as i128;
                 match (r, valid) {
                     (Ok(ret), true) => {
                         if let Some(p) = ret {
